@@ -85,7 +85,7 @@ func TestVerifC15Log(tt *testing.T) {
 		"debug-profile", "filtering-disabled", "logged-no-location", "logged-escaped-rule", "dropped-profile-logging-on",
 		"logged-both-req-blocked+resp-blocked", "logged-both-req-blocked+resp-allowed", "logged-both-req-allowed+resp-blocked",
 		"logged-both-req-allowed+resp-allowed", "logged-both-rewritten+resp-blocked", "logged-both-other-rule",
-		"near-miss-logging-differs", "near-miss-ip-logging-differs", "log-flip-by-device", "log-flip-by-anon", "concurrent-logged", "concurrent-profile-not-logged", "logged-asn-unknown")
+		"logged-name-of-mixed-case-question", "logged-name-of-mixed-case-question-cname-rewritten", "near-miss-logging-differs", "near-miss-ip-logging-differs", "log-flip-by-device", "log-flip-by-anon", "concurrent-logged", "concurrent-profile-not-logged", "logged-asn-unknown")
 	st.Finish(tt)
 
 	opts := vfsOpts{AccessHeavy: false, Drops: true}
@@ -283,8 +283,18 @@ func TestVerifC15Log(tt *testing.T) {
 					fail("entry %d is attributed to %s/%s, request to %s/%s", k, e.ProfileID, e.DeviceID, pc.ID, dc.ID)
 				}
 
-				if !strings.EqualFold(e.DomainFQDN, r.Name) || e.RequestType != r.QType {
-					fail("entry %d names %s type %d, request %s type %d", k, e.DomainFQDN, e.RequestType, r.Name, r.QType)
+				// The name is the question's name as the client sent it, byte for
+				// byte (doc/querylog.md: "the requested resource name"), also for
+				// a CNAME-rewritten request: not the lower-cased host.
+				if e.DomainFQDN != r.Name || e.RequestType != r.QType {
+					fail("entry %d names %q type %d, the request's question is %q type %d", k, e.DomainFQDN, e.RequestType, r.Name, r.QType)
+				}
+
+				if r.Name != strings.ToLower(r.Name) {
+					classes = append(classes, "logged-name-of-mixed-case-question")
+					if outcome == vfsOutCNAME {
+						classes = append(classes, "logged-name-of-mixed-case-question-cname-rewritten")
+					}
 				}
 
 				if int(e.ResponseCode) != resp.Rcode {
@@ -320,7 +330,7 @@ func TestVerifC15Log(tt *testing.T) {
 					fail("line %q lacks a mandatory property", line)
 				}
 
-				if *l.U != r.ReqID.String() || *l.B != pc.ID || *l.I != dc.ID || !strings.EqualFold(*l.N, r.Name) || *l.Q != r.QType ||
+				if *l.U != r.ReqID.String() || *l.B != pc.ID || *l.I != dc.ID || *l.N != r.Name || *l.Q != r.QType ||
 					int(*l.R) != resp.Rcode || *l.P != wantP || *l.T != r.Start.UnixMilli() {
 					fail("line %q does not describe its request (u=%s b=%s i=%s n=%s q=%d r=%d p=%d t=%d)", line, r.ReqID, pc.ID, dc.ID, r.Name, r.QType, resp.Rcode, wantP, r.Start.UnixMilli())
 				}
